@@ -1124,9 +1124,10 @@ func runDistrCase(ta *TestApp, seed uint64, idx int, rep *Report, profile string
 		}
 		return zList(bs)
 	}
-	faultsMode := (profile == "faults" || (profile == "" && rng.Chance(25))) && !k1 && !k2 // over-booked classes fail naturally; no injection there
+	faultsMode := (profile == "faults" || (profile == "" && rng.Chance(25)) || (updMode && cfg2 != nil && !retyped && rng.Chance(45))) && !k1 && !k2 // over-booked classes fail naturally; no injection there
 	// in 45% of the fault-mode cases only payouts and burns fail (the hypotheses of the ledger refinement theorem)
-	fb.payoutOnly = faultsMode && rng.Chance(45)
+	fb.payoutOnly = faultsMode && (rng.Chance(45) || updMode) // with an update in the history only payouts and burns fail: a delayed
+	// sweep would be routed by another configuration than in the fault-free twin, which is a legitimate difference
 	if fb.payoutOnly {
 		rep.Count("faults_mode.payouts_and_burns_only")
 	}
@@ -1173,9 +1174,12 @@ func runDistrCase(ta *TestApp, seed uint64, idx int, rep *Report, profile string
 	}
 	var plan []plannedBlock
 	cleanTail := 0
-	cyclic := e.hasCycle(cfg)
+	cyclic := e.hasCycle(cfg) || (cfg2 != nil && e.hasCycle(*cfg2))
 	if faultsMode {
 		cleanTail = len(cfg.subs) + 2 // enough fault-free blocks to flush every feed-backward (but acyclic) chain
+		if cfg2 != nil && len(cfg2.subs)+2 > cleanTail {
+			cleanTail = len(cfg2.subs) + 2
+		}
 	}
 	for b := 0; b < nBlocks+cleanTail; b++ {
 		var pb plannedBlock
@@ -1524,7 +1528,7 @@ func runDistrCase(ta *TestApp, seed uint64, idx int, rep *Report, profile string
 	c14cls := cls
 	// K3 / K5 (routing of a share to MAIN, missing events) are the same with and without failures: for the
 	// twin comparison the class that matters in such a configuration is a source shared by several sub-distributors
-	if (c14cls == "" || c14cls == ".K3" || c14cls == ".K5") && e.sourceListedTwice(cfg) {
+	if (c14cls == "" || c14cls == ".K3" || c14cls == ".K5") && (e.sourceListedTwice(cfg) || (cfg2 != nil && e.sourceListedTwice(*cfg2))) {
 		c14cls = ".K11"
 	}
 	if faultsMode && !main.panicked && !cyclic {
@@ -1549,7 +1553,11 @@ func runDistrCase(ta *TestApp, seed uint64, idx int, rep *Report, profile string
 					if e.addrTab[i].Equals(e.blocked) {
 						natural = true
 					}
-					for _, sb := range cfg.subs { // pass-through accounts are swept again: their balance is a matter of timing
+					bothCfgs := append([]dSub{}, cfg.subs...)
+					if cfg2 != nil {
+						bothCfgs = append(bothCfgs, cfg2.subs...)
+					}
+					for _, sb := range bothCfgs { // pass-through accounts are swept again: their balance is a matter of timing
 						for _, src := range sb.sources {
 							if ad := e.addrOf(src); ad != nil && ad.Equals(e.addrTab[i]) {
 								natural = true
